@@ -6,6 +6,7 @@ import (
 	"encoding/binary"
 	"errors"
 	"fmt"
+	"runtime"
 	"sort"
 	"strings"
 
@@ -187,6 +188,38 @@ func (ch c11) Run(c *core.Ctx) {
 		c.Eval("sslrequest after close "+want, true)
 		conn.CloseWrite()
 		conn.WaitClosed()
+	}
+	// many clients that get their 'S' and then fail the handshake (hang up, send something that is no
+	// ClientHello): whatever they leave behind, the next SSLRequest is answered and upgraded as ever
+	if c.Begin(920000) {
+		n := 3*runtime.GOMAXPROCS(0) + 8
+		for i := 0; i < n; i++ {
+			conn := envTLS.Dial(&hs.Sess{})
+			conn.Send(pg.SSLRequest())
+			if _, ok := conn.Quiesce(); !ok {
+				break // no answer at all: the upgrade below will tell
+			}
+			if i%2 == 0 {
+				conn.Send([]byte("GET / HTTP/1.1\r\nHost: not-a-client-hello\r\n\r\n"))
+				conn.Quiesce()
+			}
+			conn.CloseWrite()
+			conn.WaitClosed()
+		}
+		probe := &hs.Prog{Stmts: []*hs.Stmt{{ID: "probe", Cols: textCols(1), Ops: []hs.Op{{K: "row", Vals: []any{"after-failed-handshakes"}}, {K: "complete", Tag: "SELECT 1"}}}}}
+		t, reply, err := c11upgrade(envTLS, &hs.Sess{Default: func(string) *hs.Prog { return probe }}, nil, false, tls.VersionTLS13)
+		if err != nil {
+			c.Violate("upgrade", fmt.Sprintf("after %d failed handshakes an SSLRequest is no longer answered with S and upgraded", n), fmt.Sprintf("reply %q: %v", reply, err), nil)
+		} else {
+			if out, _ := t.step(pg.Startup([][2]string{{"user", "u"}})); !strings.HasSuffix(pg.Types(mustMsgs(out)), "Z") {
+				c.Violate("upgrade", "start-up inside TLS not served after many failed handshakes", replyKinds(out), nil)
+			}
+			t.tc.Close()
+			t.conn.CloseWrite()
+			t.conn.WaitClosed()
+		}
+		c.Count("failed_handshakes_before_upgrade", int64(n))
+		c.Eval("upgrade after failed handshakes", true)
 	}
 	// the rule speaks of certificates being configured when the SSLRequest arrives: a configuration that
 	// receives its key pair after it was handed to the option (or loses it) is judged by its state then
